@@ -104,6 +104,10 @@ class CustomDeme(AbstractDeme):
         return population
 
 
+class CustomDemeB(CustomDeme):
+    """A second deme class for the same custom config class (used by another tree of the same process)."""
+
+
 class CustomEAConfig(EALevelConfig):
     """A user's config class derived from a built-in one, registered with its own deme class."""
 
@@ -160,7 +164,11 @@ def build_bounds(plan):
 
 
 def build_stack(plan, stack_spec, fun, bounds):
-    p = FunctionProblem(fun, bounds=bounds, maximize=bool(plan["maximize"]))
+    mx = stack_spec.get("maximize", plan["maximize"])
+    if stack_spec.get("use_cache"):
+        p = FunctionProblem(fun, bounds=bounds, maximize=bool(mx), use_cache=True)
+    else:
+        p = FunctionProblem(fun, bounds=bounds, maximize=bool(mx))
     layers = []
     for ls in stack_spec["layers"]:
         k = ls["kind"]
@@ -373,12 +381,15 @@ def build_config(plan):
     kw = {}
     reg = {}
     if any(ls["engine"] == "custom" for ls in plan["levels"]):
-        reg[CustomLevelConfig] = CustomDeme
+        reg[CustomLevelConfig] = CustomDemeB if plan.get("custom_variant") == "B" else CustomDeme
     if any(ls.get("custom_derived") for ls in plan["levels"]):
         reg[CustomEAConfig] = CustomEADeme
     if reg:
         kw["config_class_to_deme_class"] = reg
-    cfg = TreeConfig(levels, gsc, sprout, options=options, **kw)
+    if not options and plan.get("omit_options"):
+        cfg = TreeConfig(levels, gsc, sprout, **kw)  # the library's default options object
+    else:
+        cfg = TreeConfig(levels, gsc, sprout, options=options, **kw)
     return cfg
 
 
@@ -396,9 +407,24 @@ def seed_globals(plan, salt=0):
         random.random()
 
 
+def _merged(plan, over):
+    import copy
+
+    q = copy.deepcopy({k: v for k, v in plan.items() if k != "preceded_by"})
+    for k, v in over.items():
+        q[k] = copy.deepcopy(v)
+    return q
+
+
 def execute(plan, monitor_classes=(), wall_s=60.0, keep_log=True, pre_hook=None):
     """Run one plan to completion inside a fresh World.  Returns the World (already
-    uninstalled; ``w.dispose()`` is the caller's job once it has read the results)."""
+    uninstalled; ``w.dispose()`` is the caller's job once it has read the results).
+
+    ``plan["preceded_by"]``: list of top-level overrides; for each, the plan with these overrides is executed first
+    in the same process (unmonitored) - "another tree ran earlier in this interpreter" is part of the replay file."""
+    for over in plan.get("preceded_by", []) or []:
+        w0 = execute(_merged(plan, over), (), wall_s=wall_s, keep_log=False)
+        w0.dispose()
     w = World(plan, monitor_classes, keep_log=keep_log)
     warnings.simplefilter("ignore")
     np.seterr(all="ignore")
